@@ -84,7 +84,7 @@ def _mk_array(nr, dtype, shape, ba, bs, pr, content='random'):
         if ba == 1:
             lo, hi = 0, 1
         elif 1 <= bs < 8 * np.dtype(dtype).itemsize:
-            if info.min < 0:
+            if info.min < 0:   # signed dtype
                 lo, hi = max(lo, -(2 ** (bs - 1))), min(hi, 2 ** (bs - 1) - 1)
             else:
                 hi = min(hi, 2 ** bs - 1)
@@ -183,11 +183,21 @@ def _same(got, a):
     return bool(np.array_equal(got.astype(np.int64), a.astype(np.int64)))
 
 
+def _same_values(got, a):
+    """equality of the values in C order (the one-frame decode of pydicom drops / adds unit dimensions)"""
+    got = np.asarray(got)
+    if got.size != a.size:
+        return False
+    return bool(np.array_equal(got.astype(np.int64).reshape(-1), np.asarray(a).astype(np.int64).reshape(-1)))
+
+
 def _fits_stored(a, ba, bs, pr):
+    """content within the stored range -- judged by the array's OWN signedness, so that a frame whose dtype contradicts
+    the declared pixel representation stays inside the oracle (it must be refused or round-trip)"""
     if a.dtype.kind == 'f' or ba == 1 or not (1 <= bs <= 64):
         return True
     v = a.astype(np.int64)
-    if pr == 1:
+    if a.dtype.kind == 'i':
         return bool(v.min() >= -(2 ** (bs - 1)) and v.max() < 2 ** (bs - 1))
     return bool(v.min() >= 0 and v.max() < 2 ** bs)
 
@@ -245,14 +255,14 @@ def _check(ctx, kind, ts, dtype, ba, bs, samples, pi, pr, pc, a, reqs, pending, 
             shape_free = (a.ndim == 3 and a.shape[2] == 1)
             if st2 != 'ok':
                 ctx.fail(case, f'accepted, but decode_frame with the same parameters fails: {dec}', site='roundtrip')
-            elif not (_same(dec, a) or (shape_free and _same(np.asarray(dec).reshape(a.shape), a))):
+            elif not (_same(dec, a) or (shape_free and _same_values(dec, a))):
                 ctx.fail(case, {'what': 'decode_frame(encode_frame(x)) != x', 'got_shape': list(np.asarray(dec).shape),
                                 'got': np.asarray(dec).reshape(-1)[:24].tolist(),
                                 'want': np.asarray(a).astype(np.int64).reshape(-1)[:24].tolist()}, site='roundtrip')
             st3, pyd = _pydicom_one_frame(val, ts, rows, cols, spp, ba, bs, pi, pr, pc)
             if st3 != 'ok':
                 ctx.fail(case, f'pydicom cannot decode the bytes as a one-frame image: {pyd}', site='one-frame')
-            elif not _same(np.asarray(pyd).reshape(a.shape), a):
+            elif not _same_values(pyd, a):
                 ctx.fail(case, {'what': 'pydicom decodes the bytes to a different array',
                                 'got': np.asarray(pyd).reshape(-1)[:24].tolist(),
                                 'want': np.asarray(a).astype(np.int64).reshape(-1)[:24].tolist()}, site='one-frame')
